@@ -155,6 +155,16 @@ Theorem C06_relabel_lattice_covers : forall t ps pc on an on' an' L L' i j i' j'
 Proof. exact relabel_lattice_covers. Qed.
 Print Assumptions C06_relabel_lattice_covers.
 
+(* FormalContext.__getitem__ with a row and a column permutation, K[ps, pc], IS that relabelling
+   on every back-end: table, object names and attribute names in the given order *)
+Theorem C06_getitem_is_relabelling : forall b K ps pc,
+  ctx_wf K -> is_perm (height (k_tbl K)) ps -> is_perm (width (k_tbl K)) pc ->
+  ctx_getitem b K ps pc =
+  COk {| k_tbl := relabel_table ps pc (k_tbl K);
+         k_on := names_at (k_on K) ps; k_an := names_at (k_an K) pc |}.
+Proof. exact ctx_getitem_is_relabel. Qed.
+Print Assumptions C06_getitem_is_relabelling.
+
 (* ================================================================== monotone lattice *)
 
 (* A = the objects having some attribute of B, B = the attributes no object outside A has *)
